@@ -175,6 +175,10 @@ def materialise(j, program):
 
 
 # ------------------------------------------------------------------ parameters under test
+def wd_of(flag):
+    return WD if flag is True else ('' if flag == '' else None)
+
+
 def make_program(wd):
     import mpvnodes
     from mpilot import params as prm
@@ -217,6 +221,7 @@ def make_param(name):
         'ResultNonFuzzy': lambda: prm.ResultParameter(prm.DataParameter(), is_fuzzy=False),
         'ListNumber': lambda: prm.ListParameter(prm.NumberParameter()),
         'ListString': lambda: prm.ListParameter(prm.StringParameter()),
+        'ListBoolean': lambda: prm.ListParameter(prm.BooleanParameter()),
         'ListListNumber': lambda: prm.ListParameter(prm.ListParameter(prm.NumberParameter())),
         'ListResult': lambda: prm.ListParameter(prm.ResultParameter()),
         'ListAny': lambda: prm.ListParameter(),
@@ -227,7 +232,7 @@ def make_param(name):
 
 
 PARAMS = ['Parameter', 'String', 'Number', 'Boolean', 'Path', 'PathMustExist', 'Result', 'ResultData', 'ResultFuzzy', 'ResultNonFuzzy', 'ListNumber',
-          'ListString', 'ListListNumber', 'ListResult', 'ListAny', 'Tuple', 'DataType']
+          'ListString', 'ListBoolean', 'ListListNumber', 'ListResult', 'ListAny', 'Tuple', 'DataType']
 
 
 def plan(tier, seed):
@@ -236,7 +241,7 @@ def plan(tier, seed):
         for kind in RAW_KINDS:
             if kind in ('abs_path', 'rel_path') and not pn.startswith('Path') and pn != 'String':
                 continue
-            for wd in ((True, False) if pn.startswith('Path') else (True,)):
+            for wd in ((True, False, '') if pn.startswith('Path') else (True,)):
                 jobs.append(dict(param=pn, raw=kind, wd=wd))
     return jobs
 
@@ -307,7 +312,7 @@ def typed_ok(pn, raw_kind, out, wd):
     if pn.startswith('Path'):
         if not is_text(out):
             return False
-        if wd:
+        if wd is True:
             return out.startswith('/') if not isinstance(out, SymStr) else z3.PrefixOf(z3.StringVal('/'), out.e)
         return True
     if pn.startswith('Result'):
@@ -316,6 +321,8 @@ def typed_ok(pn, raw_kind, out, wd):
         return isinstance(out, list) and all(is_num(x) for x in out)
     if pn == 'ListString':
         return isinstance(out, list) and all(is_text(x) for x in out)
+    if pn == 'ListBoolean':
+        return isinstance(out, list) and all(isinstance(x, (bool, SymBool)) for x in out)
     if pn == 'ListListNumber':
         return isinstance(out, list) and all(isinstance(x, list) and all(is_num(y) for y in x) for x in out)
     if pn == 'ListResult':
@@ -329,6 +336,7 @@ def typed_ok(pn, raw_kind, out, wd):
     return True
 
 
+WDFLAG = [True]
 NON_SCALAR = ('list_int', 'list_str', 'list_mixed', 'nested', 'empty_list', 'dict', 'empty_dict', 'none', 'command', 'type')
 STRS = ('str', 'str_int', 'str_float', 'str_bool', 'abs_path', 'rel_path', 'result_name')
 
@@ -354,7 +362,7 @@ def expected_outcome(pn, kind, wd):
         if kind == 'abs_path':
             return True
         if kind == 'rel_path':
-            return bool(wd)
+            return wd is not False      # resolved against any working directory, including the empty one the CLI passes
         return None
     if pn == 'Tuple':
         if kind in ('dict', 'empty_dict', 'empty_list'):
@@ -374,6 +382,8 @@ def expected_outcome(pn, kind, wd):
         if pn == 'ListNumber' and kind == 'list_int':
             return True
         if pn == 'ListString':
+            return True
+        if pn == 'ListBoolean' and kind == 'list_int':
             return True
         return None
     if pn.startswith('Result'):
@@ -401,8 +411,10 @@ def expected_value(pn, kind, raw, out):
         return equal_values(raw, out)
     if pn == 'Path' and kind == 'abs_path':
         return equal_values(raw, out)
-    if pn == 'Path' and kind == 'rel_path' and isinstance(out, str):
+    if pn == 'Path' and kind == 'rel_path' and isinstance(out, str) and WDFLAG[0] is True:
         return symx._sterm(out) == z3.Concat(z3.StringVal(WD + '/'), raw.e)
+    if pn == 'Path' and kind == 'rel_path' and isinstance(out, str) and WDFLAG[0] == '':
+        return symx._sterm(out) == raw.e
     if pn == 'ListNumber' and kind == 'list_int':
         return equal_values(raw, out)
     return None
@@ -424,8 +436,9 @@ def call_clean(param, raw, program, E):
 def harness(ctx, cfg):
     E = sys.modules['mpilot.exceptions']
     global CONCRETE_INTS
-    CONCRETE_INTS = cfg['param'] == 'Boolean'
-    program = make_program(WD if cfg['wd'] else None)
+    WDFLAG[0] = cfg['wd']
+    CONCRETE_INTS = cfg['param'] in ('Boolean', 'ListBoolean')
+    program = make_program(wd_of(cfg['wd']))
     param = make_param(cfg['param'])
     raw, spec = make_raw(ctx, cfg['raw'])
     if cfg['raw'] == 'command':
@@ -453,7 +466,7 @@ def harness(ctx, cfg):
     ob('the raw argument is not altered', shape_before == shape_after and len(leaves_before) == len(leaves_after), 'purity')
     if leaves_before and len(leaves_before) == len(leaves_after):
         ob('the raw argument keeps its values', z3.And(*[a == b for a, b in zip(leaves_before, leaves_after)]), 'purity')
-    ob('the program is not altered', list(program.commands.items()) == cmds_before and program.working_dir == (WD if cfg['wd'] else None), 'purity')
+    ob('the program is not altered', list(program.commands.items()) == cmds_before and program.working_dir == wd_of(cfg['wd']), 'purity')
     # repeatability
     oc2, out2 = call_clean(param, raw, program, E)
     ob('cleaning the same raw value again gives the same outcome', oc1 == oc2, 'repeatable')
@@ -461,7 +474,7 @@ def harness(ctx, cfg):
         ob('cleaning the same raw value again gives an equal value', equal_values(out1, out2), 'repeatable')
         ob('the cleaned value has the documented type', typed_ok(cfg['param'], cfg['raw'], out1, cfg['wd']), 'type')
         # idempotence (paths: under an absolute working directory)
-        if not cfg['param'].startswith('Path') or cfg['wd']:
+        if not cfg['param'].startswith('Path') or cfg['wd'] is True:
             oc3, out3 = call_clean(param, out1, program, E)
             ob('cleaning an already-cleaned value succeeds (got %s)' % oc3, oc3 == 'ok', 'idempotent')
             if oc3 == 'ok':
@@ -477,7 +490,7 @@ def harness(ctx, cfg):
 def concrete_run(rec):
     """the same checks on concrete values with the real builtins (the shadows defer to them for non-symbolic values)"""
     E = sys.modules['mpilot.exceptions']
-    program = make_program(WD if rec['wd'] else None)
+    program = make_program(wd_of(rec['wd']))
     param = make_param(rec['param'])
     raw = materialise(rec['raw'], program)
     before = copy.deepcopy(raw) if not hasattr(raw, 'result_name') else raw
@@ -489,7 +502,10 @@ def concrete_run(rec):
         exp = expected_outcome(rec['param'], rec.get('raw_kind'), rec['wd'])
         facts['documented_outcome'] = True if exp is None else ((oc1 == 'ok') if exp else oc1.startswith('param-error'))
         facts['documented_value'] = True
+        facts['typed'] = True
         if oc1 == 'ok':
+            t_ = typed_ok(rec['param'], rec.get('raw_kind'), out1, rec['wd'])
+            facts['typed'] = bool(t_) if not z3.is_expr(t_) else True
             k = rec.get('raw_kind')
             if rec['param'] == 'Boolean' and k == 'str_bool':
                 facts['documented_value'] = out1 is (raw.lower() == 'true')
@@ -504,10 +520,10 @@ def concrete_run(rec):
             elif rec['param'] == 'Path' and k == 'abs_path':
                 facts['documented_value'] = out1 == raw
             elif rec['param'] == 'Path' and k == 'rel_path':
-                facts['documented_value'] = out1 == WD + '/' + raw
+                facts['documented_value'] = out1 == ((WD + '/' + raw) if rec['wd'] is True else raw)
         if oc1 == 'ok' and oc2 == 'ok':
             facts['repeat'] = facts['repeat'] and (out1 == out2 or out1 is out2)
-            if not rec['param'].startswith('Path') or rec['wd']:
+            if not rec['param'].startswith('Path') or rec['wd'] is True:
                 oc3, out3 = call_clean(param, out1, program, E)
                 facts['idem'] = oc3 == 'ok' and (out3 == out1 or out3 is out1) and type(out3) is type(out1)
         return facts
@@ -532,7 +548,7 @@ def path_check(rec, oc):
 
 def confirm(rec, label):
     f = concrete_run(rec)
-    bad = f['escaped'] or not f['pure'] or not f['repeat'] or (f.get('idem') is False) or not f['documented_outcome'] or not f['documented_value']
+    bad = f['escaped'] or not f['pure'] or not f['repeat'] or (f.get('idem') is False) or not f['documented_outcome'] or not f['documented_value'] or not f['typed']
     return bad, 'concrete run on %s with %s: %s' % (rec['param'], rec['raw'], f)
 
 
